@@ -76,7 +76,7 @@ def r210(chk, m):
             ('a global definition inside a macro body', 'gdef', '##1##2', '##2-##1', ('inner', '#1#2', '#2-#1', 'False'))):
         c = m.cls(prim, cname)
         h = H(m, c)
-        h.should_inline = A.private_only
+        h.should_inline = A.helpers_anywhere
         it = A.Interp(model=m, scope=fn, hooks=h, max_iter=12, exc_edges=False, inline=4, heap=True, precise_exc=True)
         ctx = A.Obj('context', {'newdef': A.Sym('extfunc:the.context.newdef', truthy=True)})
         me = A.Obj('def', {'attributes': {'name': A.Obj('name', {'nodeName': 'inner'}), 'args': [tok(ch) for ch in args], 'definition': [tok(ch) for ch in body]},
